@@ -94,20 +94,35 @@ func c11r1(c *core.Ctx) {
 		return
 	}
 	// K5: direct stores to table.len
-	var writers []string
+	// Writers that can only grow the length (t.len++, t.len += n) vacate nothing; every other writer (decrement,
+	// subtraction, plain store) must be the swap-remove or the reset role (or a private helper of one of them), whose
+	// zeroing the clauses below decide.
+	var writers, shrinking []string
+	shrinkOK := map[*core.Func]bool{}
+	for _, role := range []*core.Func{tr.Remove, tr.Reset} {
+		for _, g := range withCallees(m, role, 2) {
+			shrinkOK[g] = true
+		}
+	}
 	for _, f := range m.Funcs {
-		direct := false
+		direct, mayShrink := false, false
 		core.InspectNoLits(f.Body, func(n ast.Node) bool {
 			switch x := n.(type) {
 			case *ast.AssignStmt:
 				for _, l := range x.Lhs {
 					if fieldKeyOf(m, l) == "table.len" {
 						direct = true
+						if x.Tok != token.ADD_ASSIGN {
+							mayShrink = true
+						}
 					}
 				}
 			case *ast.IncDecStmt:
 				if fieldKeyOf(m, x.X) == "table.len" {
 					direct = true
+					if x.Tok != token.INC {
+						mayShrink = true
+					}
 				}
 			}
 			return true
@@ -117,13 +132,17 @@ func c11r1(c *core.Ctx) {
 			if f.Recv != "table" {
 				c.Violation("C11/R1", f.Name+" writes table.len", c.At(f.Pos()), f.Name+": the table length is written outside the table's own grow / swap-remove / reset functions; vacated rows would not be zeroed")
 			}
+			if mayShrink && !shrinkOK[f] {
+				shrinking = append(shrinking, f.Name)
+			}
 		}
 	}
 	sort.Strings(writers)
-	if len(writers) <= 3 {
-		c.OK("C11/R1", "writers of table.len", "", "length stored only by "+strings.Join(writers, ", "))
+	sort.Strings(shrinking)
+	if len(shrinking) == 0 {
+		c.OK("C11/R1", "writers of table.len", "", "length stored by "+strings.Join(writers, ", ")+"; only the swap-remove and the reset role can lower it")
 	} else {
-		c.Violation("C11/R1", "writers of table.len", "", "the table length is stored by "+strings.Join(writers, ", ")+"; each decreasing writer must zero the vacated rows")
+		c.Violation("C11/R1", "writers of table.len", "", "the table length can be lowered by "+strings.Join(shrinking, ", ")+", which is neither the swap-remove nor the reset role; the rows it vacates are not covered by the zeroing obligations")
 	}
 	// swap-remove: every path through every loop over the columns zeroes the last row
 	{
@@ -299,7 +318,7 @@ func c11r1(c *core.Ctx) {
 					if _, isC := callTo(m, call, zeroRange); isC && len(call.Args) >= 2 {
 						// the range [0, ownLen): one argument is the constant 0, another the row-count parameter
 						zeroArg, lenArg := false, false
-						for _, a := range call.Args {
+						for _, a := range argLeaves(m, call.Args) {
 							if tv, ok := m.Info.Types[a]; ok && tv.Value != nil && tv.Value.String() == "0" {
 								zeroArg = true
 							}
@@ -388,29 +407,45 @@ func c11r1(c *core.Ctx) {
 			})
 			return !cond
 		}
+		// the loop bound is the count parameter ...
+		boundIs := func(bound ast.Expr, v *types.Var) bool {
+			id := identOf(m.StripConv(m.Inline(m.StripConv(bound))))
+			return id != nil && v != nil && m.Info.ObjectOf(id) == types.Object(v)
+		}
 		core.InspectNoLits(f.Body, func(n ast.Node) bool {
-			switch l := n.(type) {
-			case *ast.RangeStmt:
-				if id, isID := ast.Unparen(m.StripConv(l.X)).(*ast.Ident); isID && m.Info.ObjectOf(id) == lenPar2 {
-					okLoop = unconditional(l.Body)
-				}
-			case *ast.ForStmt:
-				as, isAs := l.Init.(*ast.AssignStmt)
-				be, isB := ast.Unparen(l.Cond).(*ast.BinaryExpr)
-				inc, isInc := l.Post.(*ast.IncDecStmt)
-				if !isAs || !isB || !isInc || len(as.Lhs) != 1 || len(as.Rhs) != 1 || inc.Tok != token.INC || be.Op != token.LSS {
-					return true
-				}
-				iv, isID := as.Lhs[0].(*ast.Ident)
-				if !isID || !isZeroLit(m, m.StripConv(as.Rhs[0])) || !isIdentOf(m, be.X, m.Info.ObjectOf(iv)) || !isIdentOf(m, inc.X, m.Info.ObjectOf(iv)) {
-					return true
-				}
-				if id, isID := ast.Unparen(m.StripConv(be.Y)).(*ast.Ident); isID && m.Info.ObjectOf(id) == lenPar2 {
-					okLoop = unconditional(l.Body)
-				}
+			if bound, body, isC := countLoop(m, n); isC && boundIs(bound, lenPar2) {
+				okLoop = unconditional(body)
 			}
 			return true
 		})
+		// ... or, when the rows are handed over in another shape (a span struct), the expression that stands for the
+		// reset role's row count when the body is read under that call's arguments
+		if !okLoop && colReset != nil {
+			var resetLen *types.Var
+			for i := 0; i < colReset.Sig.Params().Len(); i++ {
+				if isInt(colReset.Sig.Params().At(i).Type()) && resetLen == nil {
+					resetLen = colReset.Sig.Params().At(i)
+				}
+			}
+			core.InspectNoLits(colReset.Body, func(n ast.Node) bool {
+				call, ok := n.(*ast.CallExpr)
+				if !ok {
+					return true
+				}
+				if _, isC := callTo(m, call, zeroRange); !isC {
+					return true
+				}
+				m.WithCall(zeroRange, call, func() {
+					core.InspectNoLits(f.Body, func(x ast.Node) bool {
+						if bound, body, isC := countLoop(m, x); isC && boundIs(bound, resetLen) {
+							okLoop = unconditional(body)
+						}
+						return true
+					})
+				})
+				return true
+			})
+		}
 		if okLoop {
 			c.OK("C11/R1", f.Name, c.At(f.Pos()), "loops over exactly the given number of rows without skipping")
 		} else {
@@ -759,7 +794,8 @@ func c11r4(c *core.Ctx) {
 		return
 	}
 	// every assignment to X.data in the function allocates through reflect.New(reflect.ArrayOf(...)).Elem()
-	core.InspectNoLits(adj.Body, func(n ast.Node) bool {
+	// (the function itself, or per-column helpers it hands the capacity and length to: read under the call's bindings)
+	inspectThrough(m, adj.Body, 2, nil, func(n ast.Node) bool {
 		as, ok := n.(*ast.AssignStmt)
 		if !ok {
 			return true
@@ -806,7 +842,7 @@ func c11r4(c *core.Ctx) {
 		return true
 	})
 	// in the column loop: if isTrivial { raw copy len*itemSize } else { reflect.Copy(new, old) }
-	core.InspectNoLits(adj.Body, func(n ast.Node) bool {
+	inspectThrough(m, adj.Body, 2, nil, func(n ast.Node) bool {
 		is, ok := n.(*ast.IfStmt)
 		if !ok || fieldKeyOf(m, is.Cond) != "column.isTrivial" || is.Else == nil {
 			return true
